@@ -74,6 +74,9 @@ class _Task(DebugContents, Logging):
 
         # pass along to the task manager
         if not _task_manager:
+            # reinstalling moves the task
+            if self in _unscheduled_tasks:
+                _unscheduled_tasks.remove(self)
             _unscheduled_tasks.append(self)
         else:
             _task_manager.install_task(self)
@@ -194,6 +197,10 @@ class RecurringTask(_Task):
         # if there is no task manager, postpone the install
         if not _task_manager:
             if _debug: RecurringTask._debug("    - no task manager")
+
+            # reinstalling moves the task
+            if self in _unscheduled_tasks:
+                _unscheduled_tasks.remove(self)
             _unscheduled_tasks.append(self)
 
         else:
